@@ -8,7 +8,8 @@ from pv import gen
 
 NS = [("ex", "http://ex.org/"), ("o", "http://other.org/ns#"), ("u", "urn:x:")]
 NOQUAL = {"Attribution", "Communication", "Delegation", "Influence", "Specialization", "Alternate", "Membership"}   # anonymous => bare
-BARE_ONLY = {"Specialization", "Alternate", "Membership"}        # no qualified form in PROV-O: generated anonymous and bare only
+BARE_ONLY = {"Specialization", "Alternate", "Membership"}        # no qualified form in PROV-O; the library still writes identified ones
+                                                                 # (new_record can give them an identifier and attributes): in the space
 KINDS = [k for k in gen.KINDS if k != "Mention"]
 PROV_CLASSES = {"Entity", "Activity", "Agent", "Generation", "Usage", "Communication", "Start", "End", "Invalidation", "Derivation",
                 "Attribution", "Association", "Delegation", "Influence", "Bundle", "Alternate", "Specialization", "Mention", "Membership",
@@ -76,12 +77,9 @@ def program(r, non_ascii=False, max_records=5):
                 continue
             subj, obj = name(["s1", "s2", "s3", "s/4"]), name(["o1", "o2", "o.3", "9o"])
             key = (t, kind, subj["s"])
-            if kind in BARE_ONLY:
-                ident = False
-            else:
-                if key not in mode:
-                    mode[key] = r.random() < 0.5     # a subject carries identified OR anonymous relations of one kind, never both
-                ident = mode[key]
+            if key not in mode:
+                mode[key] = r.random() < (0.3 if kind in BARE_ONLY else 0.5)   # a subject carries identified OR anonymous relations of one kind, never both
+            ident = mode[key]
             args = {formals[0]: subj, formals[1]: obj}
             ex = []
             if ident or kind not in NOQUAL:
@@ -89,8 +87,6 @@ def program(r, non_ascii=False, max_records=5):
                     if r.random() < 0.5:
                         args[f] = val_dt(r, as_="dt") if f in gen.TIME_ATTRS else name(["x1", "x2"])
                 ex = extras(True)
-            if kind in BARE_ONLY:
-                ex = []
             ops.append(["rec", t, kind, name(["r%d" % n[0]]) if ident else None, args, ex, "new_record", label])
     return ops
 
@@ -163,8 +159,6 @@ def in_space(doc):
                         return "subject with identified and anonymous relation of one kind"
                     anon_kinds.add((kind, subj))
                 else:
-                    if kind in BARE_ONLY:
-                        return "identified %s has no PROV-O form" % kind
                     if (kind, subj) in anon_kinds:
                         return "subject with identified and anonymous relation of one kind"
                     ident_kinds.add((kind, subj))
